@@ -19,13 +19,23 @@ pub fn item_str(i: &hooks::Item) -> String {
     }
 }
 
-/// enc F;F;F  ->  ok HEX
+/// enc F;F;F [pre=N]  ->  ok HEX
+/// With pre=N the message is encoded into a buffer that already holds N octets (an unflushed tail of earlier messages):
+/// what is there must stay as it is and the message's bytes behind it must be the same as into an empty buffer.
 pub fn enc(args: &[&str]) -> String {
     let m = zmsg(msg_tok(args[0]));
+    let pre: usize = args[1..].iter().find_map(|a| a.strip_prefix("pre=")).map(|v| v.parse().unwrap()).unwrap_or(0);
     let mut c = hooks::Codec::new();
     let mut dst = BytesMut::new();
+    let filler: Vec<u8> = (0..pre).map(|i| if i % 3 == 0 { 0xff } else { 0x01 }).collect();
+    dst.extend_from_slice(&filler);
     match c.encode_message(m, &mut dst) {
-        Ok(()) => format!("ok {}", hex(&dst)),
+        Ok(()) => {
+            if dst.len() < pre || dst[..pre] != filler[..] {
+                return "err bytes-already-in-the-buffer-were-changed".to_string();
+            }
+            format!("ok {}", hex(&dst[pre..]))
+        }
         Err(e) => format!("err {}", e),
     }
 }
